@@ -18,6 +18,24 @@ def into_heavy(rng, i):
     return "#[derive(Educe)]\n%s\npub struct I%d { %s }" % (attrs, i, fields)
 
 
+def compound_offence(rng, i):
+    """Refused definitions with several independent offences (different traits given twice, unknown traits, offending field
+    attributes): the diagnostic that is reported must not depend on the iteration order of a map either."""
+    ts = rng.sample(["Debug", "Clone", "PartialEq", "Hash", "Default", "PartialOrd"], rng.randint(2, 4))
+    metas = []
+    for t in ts:
+        metas += [t, t] if rng.random() < 0.8 else [t]
+    if rng.random() < 0.3:
+        metas.append(rng.choice(["Nope", "Debug2", "serde"]))
+    rng.shuffle(metas)
+    if rng.random() < 0.5:
+        attrs = "#[educe(%s)]" % ", ".join(metas)
+    else:
+        attrs = "\n".join("#[educe(%s)]" % m for m in metas)
+    fa = rng.choice(["", "", "#[educe(%s(ignore), %s(ignore))] " % (ts[0], ts[0]), "#[educe(Eq)] ", "#[educe(%s(nope))] " % ts[-1]])
+    return "#[derive(Educe)]\n%s\npub struct X%d { %spub f: u8, pub g: u8 }" % (attrs, i, fa)
+
+
 def main(tier):
     t0 = time.time()
     proof = common.proof_obligations("C16")
@@ -27,6 +45,11 @@ def main(tier):
     try:
         cases = [(i, s) for i, s, _ in attr.valid_pool(rng, n_valid)]
         cases += [(10000 + i, into_heavy(rng, i)) for i in range(n_into)]
+        from .. import offences
+        off = [src for _, _, src in offences.generate()]
+        orng = random.Random(common.seed() + 7)
+        cases += [(20000 + i, s) for i, s in enumerate(orng.sample(off, min(len(off), n_into * 3)))]
+        cases += [(30000 + i, compound_offence(orng, i)) for i in range(n_into)]
         runs = [attr.expand_real(cases, repeat=repeat)]
         for k in range(procs - 1):
             # a fresh process (fresh hash seeds) that meets the inputs in another order: what was expanded before differs
@@ -40,6 +63,7 @@ def main(tier):
         tie["broken"].append("B3: " + str(e)[:500])
         return common.finish("C16", tier, t0, proof, tie)
     src = dict(cases)
+    refused = 0
     for i, s in cases:
         outs = set()
         for r in runs:
@@ -60,6 +84,8 @@ def main(tier):
             tie["broken_details"].append({"rust_source": s, "disagreement": bad})
         if runs[0][i]["outcome"] == "ok" and len(runs[0][i]["items"]) >= 2:
             tie["distinct_nontrivial"] += 1
+        if runs[0][i]["outcome"] != "ok":
+            refused += 1
     # the real proc-macro under rustc: the same crate expanded in several compiler processes
     try:
         import os
@@ -85,10 +111,12 @@ def main(tier):
         tie["broken"].append("B3: rustc expansion run failed: " + str(e)[:300])
     tie["failing"] = tie["failing"][:4]
     tie["broken"] = tie["broken"][:3]
-    tie["rule"] = ("valid definitions of every trait (pool of the behavioural generators) plus definitions with 2-4 Into targets; each "
+    tie["rule"] = ("valid definitions of every trait (pool of the behavioural generators) plus definitions with 2-4 Into targets, plus refused definitions (a sample of the offence clauses of C13 and definitions with "
+                   "several independent offences, e.g. two or more different traits each given twice: the diagnostic must be the same one every time); each "
                    "expanded %d times in one process and once in each of %d further processes (fresh hash seeds, the inputs met in reversed / shuffled order so that earlier expansions differ); all token streams "
                    "and diagnostics must coincide, and the impl order must be the model's; a sample of the accepted inputs is also expanded by the real proc-macro in several rustc "
                    "processes (-Zunpretty=expanded) and the printed expansions compared. distinct_nontrivial = inputs with >=2 impl items" % (repeat + 1, procs - 1))
     tie["samples"] = [{"rust_source": s, "tokens": (runs[0][i].get("tokens") or "")[:300]} for i, s in cases[-2:]]
     tie["extra"]["processes"] = procs
+    tie["extra"]["refused_inputs"] = refused
     return common.finish("C16", tier, t0, proof, tie)
